@@ -12,7 +12,7 @@ open Midgard.Text Midgard.FixedCol Midgard.Decimal Midgard.ChainParser Midgard.R
 
 def nine : List String := ["_parse_string", "_parse_comment", "_parse_approx_position", "_parse_float",
   "_parse_time_of_first_obs", "_parse_time_of_last_obs", "_parse_sys_dcbs_applied", "_parse_sys_pcvs_applied",
-  "_parse_leap_seconds", "_parse_integer", "_parse_glonass_slot", "_parse_glonass_code_phase_bias"]
+  "_parse_leap_seconds", "_parse_integer", "_parse_glonass_slot", "_parse_glonass_code_phase_bias", "_parse_phase_shift"]
 
 def plainOk (kh : String × String) : Bool :=
   handlerOf kh.1 == kh.2 && nine.contains kh.2 && (names kh.1).all fun n => key n != key "marker_name"
@@ -38,7 +38,7 @@ theorem plain_frame (k : String) (hk : plainKinds.any (·.1 == k) = true) (cells
   generalize (names kh.1).zip cells = v at h hv
   have h9' : kh.2 ∈ nine := by simpa using h9
   simp only [nine, List.mem_cons, List.not_mem_nil, or_false] at h9'
-  rcases h9' with e | e | e | e | e | e | e | e | e | e | e | e <;> rw [e] at h <;>
+  rcases h9' with e | e | e | e | e | e | e | e | e | e | e | e | e <;> rw [e] at h <;>
     simp only [handle, String.reduceEq, if_false, if_true] at h
   · simp only [pure, Except.pure, Except.ok.injEq] at h; subst h; exact frame_parseString v s hv
   · exact frame_parseComment v s s' h
@@ -52,6 +52,7 @@ theorem plain_frame (k : String) (hk : plainKinds.any (·.1 == k) = true) (cells
   · exact frame_parseIntegerFields v s s' hv h
   · exact frame_parseGlonassSlot v s s' h
   · exact frame_parseGlonassBias v s s' h
+  · exact frame_parsePhaseShift v s s' h
 
 
 /-! ### `SYS / # / OBS TYPES`: the field dictionary -/
